@@ -678,7 +678,11 @@ func (df *DataFrame) Add(other *DataFrame, fillValue ...any) (*DataFrame, error)
 		colToAdd := NewColumn(colName, []any{})
 
 		// get the other column's row data
-		otherRows := other.Columns[colName].Data
+		otherCol, exists := other.Columns[colName]
+		if !exists {
+			return NewDataFrame(), fmt.Errorf("column '%s' does not exist in the other dataframe", colName)
+		}
+		otherRows := otherCol.Data
 		dfRows := col.Data
 
 		// get the max number of rows between the 2
